@@ -1,17 +1,48 @@
 (* Property C13: the static score of a position from White's perspective is exactly the negation of its
    score from Black's perspective, and mirroring a position (flip ranks, swap colours, side to move,
-   castling rights and en-passant square) gives exactly the same score from the mirrored perspective. *)
+   castling rights and en-passant square) gives exactly the same score from the mirrored perspective.
+   mirror_bb / mirror_board / mirror_state: proofs/EvalMirror.v (every set bit s of every slot moves to
+   flip_rank s, White and Black slots are exchanged, the side to move and the castling rights are exchanged,
+   the e.p. square is flipped). *)
 From WV Require Import Types Bits Attacks Board MoveEnc MoveGen Rules Abs Wf Encode Eval.
-From WV Require Import EvalF32 EvalShortcut EvalProofs.
+From WV Require Import EvalF32 EvalShortcut EvalProofs EvalMirror.
 Import WV.Bits.
 Open Scope Z_scope.
 
+(* exact negation, for every well-formed state (terminal and heuristic branch), and the unwrap panic is
+   perspective independent *)
 Theorem C13_negation : forall s d v, WfState s ->
   (evaluate s White d = EVal v <-> evaluate s Black d = EVal (- v)) /\
   (evaluate s White d = EPanic <-> evaluate s Black d = EPanic).
 Proof. exact eval_negation. Qed.
 Print Assumptions C13_negation.
 
+Theorem C13_negation_persp : forall s p d, WfBoard (st_board s) ->
+  match evaluate s p d with
+  | EVal v => evaluate s (opp p) d = EVal (- v)
+  | EPanic => evaluate s (opp p) d = EPanic
+  end.
+Proof. exact evaluate_opp. Qed.
+Print Assumptions C13_negation_persp.
+
 Theorem C13_heuristic_odd : forall b p, WfBoard b -> heuristic b (opp p) = - heuristic b p.
 Proof. exact heuristic_odd. Qed.
 Print Assumptions C13_heuristic_odd.
+
+(* mirror, heuristic part.  The hypothesis "at most one king per colour" is needed: the king-to-edge
+   term reads king.first_square(), and with two kings of one colour on different ranks the lowest square
+   is a different king after the flip.  Every legal position satisfies it (C13_mirror_heuristic_legal). *)
+Theorem C13_mirror_heuristic : forall b p, WfBoard b -> (forall c, count b c King <= 1) ->
+  heuristic (mirror_board b) (opp p) = heuristic b p.
+Proof. exact mirror_heuristic. Qed.
+Print Assumptions C13_mirror_heuristic.
+
+Theorem C13_mirror_heuristic_legal : forall s p, LegalPos s ->
+  heuristic (st_board (mirror_state s)) (opp p) = heuristic (st_board s) p.
+Proof. exact mirror_heuristic_legal. Qed.
+Print Assumptions C13_mirror_heuristic_legal.
+
+(* the mirror image is again a well-formed placement / state *)
+Theorem C13_mirror_wf : forall s, WfState s -> WfState (mirror_state s).
+Proof. exact mirror_wf_state. Qed.
+Print Assumptions C13_mirror_wf.
